@@ -254,4 +254,16 @@ func plyFixed(run *hx.Run) {
 	run.Add(plyCase(genPlyDesc(r, 2, true, 45))) // all 62 properties
 	run.Add(plyCase(genPlyDesc(r, 1, true, 0)))
 	run.Add(plyCase(plyDesc{N: 0, Attrs: map[string][][]float64{}}))
+	// every SH degree 0..3 (0, 9, 24, 45 f_rest_N attributes) with the five / six named attributes, 1 and 3 splats:
+	// each f_rest_N must come back under its own name with its own values
+	for _, rest := range []int{0, 9, 24, 45} {
+		for _, n := range []int{1, 3} {
+			d := genPlyDesc(r, n, true, rest)
+			if n == 3 {
+				delete(d.Attrs, modeling.NormalAttribute) // the usual splat cloud has no normals
+			}
+			run.Add(plyCase(d))
+		}
+		run.Count(fmt.Sprintf("ply:sh-degree-f_rest=%d", rest))
+	}
 }
